@@ -1240,6 +1240,65 @@ theorem closestOf_tie_spec (m0 m1 : SNode) (p0 p1 : SLink) (n0 n1 : String) (h0 
     closestOf m0 m1 p0 p1 n0 n1 = if p0.length < p1.length then some n0 else some n1 := by
   simp [closestOf, h0, h1, codeSkelShape_closest, Cmp.eval]
 
+/-! ### every element referenced by a control, as the controls ARE at call time -/
+
+theorem mem_ctlJunctions (nodes : List SNode) (cs : List Ctl) (c : Ctl) (r : Ref) (n : SNode)
+    (hc : c ∈ cs) (hr : r ∈ c.requires) (hn : n ∈ nodes) (hnode : r.isNode = true) (hname : r.name = n.name) (hk : n.kind = .junction) :
+    (ctlJunctions nodes cs).contains n.name = true := by
+  rw [List.contains_iff_mem]
+  unfold ctlJunctions
+  rw [List.mem_map]
+  refine ⟨r, List.mem_filter.mpr ⟨List.mem_flatMap.mpr ⟨c, hc, hr⟩, ?_⟩, hname⟩
+  simp only [hnode, Bool.true_and, List.any_eq_true]
+  exact ⟨n, hn, by simp [hname, hk]⟩
+
+theorem mem_ctlPipes (links : List SLink) (cs : List Ctl) (c : Ctl) (r : Ref) (l : SLink)
+    (hc : c ∈ cs) (hr : r ∈ c.requires) (hl : l ∈ links) (hlink : r.isNode = false) (hname : r.name = l.name) (hp : l.isPipe = true) :
+    (ctlPipes links cs).contains l.name = true := by
+  rw [List.contains_iff_mem]
+  unfold ctlPipes
+  rw [List.mem_map]
+  refine ⟨r, List.mem_filter.mpr ⟨List.mem_flatMap.mpr ⟨c, hc, hr⟩, ?_⟩, hname⟩
+  simp only [hlink, Bool.not_false, Bool.true_and, List.any_eq_true]
+  exact ⟨l, hl, by simp [hname, hp]⟩
+
+/-- **skeletonize keeps every element referenced by a control, as the controls are when it is called**: whatever edit history
+(`update_condition` / `update_then_actions` / `update_else_actions` / `update_priority`) produced the current controls `cs`, every
+node and link that the condition, a THEN action or an ELSE action of any control refers to is retained, for every traversal
+order, threshold, option combination and `max_cycles` -/
+theorem skeleton_keeps_control_referenced (nodes : List SNode) (links : List SLink) (cs0 : List Ctl) (edits : List CtlEdit)
+    (jUser pUser : List String) (thr : Rat) (hn : (names nodes).Nodup) (hl : (links.map (·.name)).Nodup)
+    (o : Order) (bt sm pm : Bool) (mc : Option Nat) :
+    let cs := edits.foldl applyEdit cs0
+    ∃ r, skeletonizeRun thr o bt sm pm mc (Skel.initFromControls nodes links cs jUser pUser) = some r ∧
+      ∀ c ∈ cs, ∀ ref ∈ c.requires,
+        (ref.isNode = true → ∀ n ∈ nodes, n.name = ref.name → ∃ m ∈ r.nodes, m.name = n.name ∧ m.kind = n.kind) ∧
+        (ref.isNode = false → ∀ l ∈ links, l.name = ref.name → l ∈ r.links) := by
+  intro cs
+  obtain ⟨r, hr, inv⟩ := skeleton_result_independent_properties nodes links
+    (ctlJunctions nodes cs ++ jUser) (ctlPipes links cs ++ pUser) thr hn hl o bt sm pm mc
+  refine ⟨r, hr, fun c hc ref href => ⟨fun hnode n hnn hname => ?_, fun hlink l hll hname => ?_⟩⟩
+  · apply inv.keepN n hnn
+    by_cases hk : n.kind = .junction
+    · right
+      have := mem_ctlJunctions nodes cs c ref n hc href hnn hnode hname.symm hk
+      show (ctlJunctions nodes cs ++ jUser).contains n.name = true
+      rw [List.contains_iff_mem] at this ⊢
+      exact List.mem_append_left _ this
+    · left; exact hk
+  · apply inv.keepL l hll
+    by_cases hp : l.isPipe = true
+    · right
+      have := mem_ctlPipes links cs c ref l hc href hll hlink hname.symm hp
+      show (ctlPipes links cs ++ pUser).contains l.name = true
+      rw [List.contains_iff_mem] at this ⊢
+      exact List.mem_append_left _ this
+    · left; simpa using hp
+
+/-- an ELSE action added after the rule was created protects its target like any other part (the 4-step history of seeded C19-8) -/
+example : ctlPipes [⟨"P1", "A", "B", true, 1 / 4, 300, 0, 1, false⟩, ⟨"P3", "C", "D", true, 3 / 20, 150, 0, 1, false⟩]
+    ([CtlEdit.elseA 0 [⟨false, "P3"⟩]].foldl applyEdit [⟨[], [⟨false, "P1"⟩], []⟩]) = ["P1", "P3"] := by decide +kernel
+
 /-! ### non-vacuity of the hypotheses used above -/
 
 def demoPipe : Pipe := { name := "P", a := "A", b := "B", length := 100, diam := 1, rough := 100, minor := 0, initStatus := 1, status := 1, cv := true, verts := [(5, 5)] }
